@@ -522,11 +522,9 @@ func TestVerif_C03_SignAndSubmit(t *testing.T) {
 					case ret = <-done:
 					case <-time.After(10 * time.Second):
 					}
-					if len(chain.submitted()) == 0 {
-						r.Violation("e2e:no-entry", fmt.Sprintf("threshold-1 correct shares were delivered but the member submitted nothing within %d blocks (return: %v)", (n+2)*step, ret), desc, nil)
-					} else {
-						r.Inconclusive("watchdog: member submitted but did not return within 30 s")
-					}
+					// a wall-clock watchdog cannot tell a stuck member from a
+					// slow machine: not a verdict
+					r.Inconclusive(fmt.Sprintf("watchdog: threshold-1 correct shares were delivered and %d blocks passed but the member did not finish within 30 s (submitted=%d, return after release through the timeout block: %v)", (n+2)*step, len(chain.submitted()), ret))
 					return
 				}
 			}
